@@ -260,16 +260,17 @@ def run_keepdrop(job):
 # beyond 2^31.5 (their square leaves int64), huge, quoted and empty cells
 TEXT_POOL = ['-1.2345678901234567e-05', '1.2345678901234567e+200', '-7.3e16', '3037000500', '5000000000', '', '0.1', '"12"']
 TEXT_FIXED = ['1', '2', '3']
+TEXT_FIXED_NEG = ['-1', '-2', '-3']      # with two negative cells on top: a column on which sqrt / log are undefined everywhere
 TEXT_PRESETS = ['minimal', 'default', 'fw-transformers']
 
 
 TEXT_FIRST = [None, 'default', 'minimal,fw-transformers']      # an earlier construction on the SAME frame object (a batch evaluated under two settings)
 
 
-def text_problem(rt, preset, cells, first=None):
+def text_problem(rt, preset, cells, first=None, neg=False):
     """real FeatureTransformerGeneric on a real frame: every emitted text, read back as a number, is the named formula of the parsed cell"""
     import pandas as pd
-    col = list(cells) + TEXT_FIXED
+    col = list(cells) + (TEXT_FIXED_NEG if neg else TEXT_FIXED)
     frame = pd.DataFrame({'num': col, 'other': ['x'] * len(col)})
     if first:
         rt.FeatureTransformerGeneric({'num'}, first).construct_new_features(frame)
@@ -281,6 +282,23 @@ def text_problem(rt, preset, cells, first=None):
         return f'{len(stray)} emitted columns are not transformers of the selected preset {preset!r} (e.g. {stray[0]!r})' + (f' after an earlier construction with {first!r} on the same frame' if first else '')
     if list(res['num']) != col:
         return 'the source column changed'
+    # emitted if and only if the keep rule holds for the column the named formula gives (distinct texts, majority share, NaN share)
+    if not first:
+        import math
+        for name in tr.transformer_collection:
+            try:
+                vals = [float(v) for v in c_ref(name, xs)]
+            except KeyError:
+                continue
+            keys = ['nan' if math.isnan(v) else repr(v) for v in vals]
+            if any(k in ('inf', '-inf') for k in keys):
+                continue      # infinities: outside what the reference decides
+            cnt = {}
+            for k in keys:
+                cnt[k] = cnt.get(k, 0) + 1
+            keep = len(cnt) > 1 and max(cnt.values()) / len(keys) < 0.8 and cnt.get('nan', 0) / len(keys) < 0.75
+            if keep != (('num' + name) in res.columns):
+                return f'num{name}: the named formula gives {keys}, so the column must {"" if keep else "not "}be emitted; it was {"" if ("num" + name) in res.columns else "not "}emitted'
     for c in res.columns:
         if c in ('num', 'other'):
             continue
@@ -315,6 +333,8 @@ def run_text(job):
         ctx.assume(st['p'] >= 0, st['p'] < len(TEXT_PRESETS))
         st['f'] = z3.Int('first')
         ctx.assume(st['f'] >= 0, st['f'] < len(TEXT_FIRST))
+        st['neg'] = z3.Bool('neg')
+        ctx.assume(z3.Implies(st['neg'], st['f'] == 0))
         for k, v in job['pins'].items():
             ctx.assume(z3.Int(k) == v)
 
@@ -322,9 +342,10 @@ def run_text(job):
         cells = [TEXT_POOL[int(SInt(v, 0, len(TEXT_POOL) - 1))] for v in st['c']]
         preset = TEXT_PRESETS[int(SInt(st['p'], 0, len(TEXT_PRESETS) - 1))]
         first = TEXT_FIRST[int(SInt(st['f'], 0, len(TEXT_FIRST) - 1))]
-        w = {'cond': 'text', 'cells': cells, 'preset': preset, 'first': first}
+        neg = bool(symx.SBool(st['neg']))
+        w = {'cond': 'text', 'cells': cells, 'preset': preset, 'first': first, 'neg': neg}
         try:
-            p = text_problem(rt, preset, cells, first)
+            p = text_problem(rt, preset, cells, first, neg)
         except Exception as e:
             p = f'{type(e).__name__}: {e}'
         if p or out.twin:
@@ -476,11 +497,11 @@ def replay(w):
         return {'reproduced': False, 'what': 'union selected'}
     if c == 'text':
         try:
-            p = text_problem(rt, w['preset'], w['cells'], w.get('first'))
+            p = text_problem(rt, w['preset'], w['cells'], w.get('first'), w.get('neg', False))
         except Exception as e:
             p = f'{type(e).__name__}: {e}'
         if p:
-            return {'reproduced': True, 'signature': 'C12:text:' + p.split(':')[0][3:40], 'what': f'preset {w["preset"]}, numeric column {w["cells"] + TEXT_FIXED}: {p}'}
+            return {'reproduced': True, 'signature': 'C12:text:' + p.split(':')[0][3:40], 'what': f'preset {w["preset"]}, numeric column {w["cells"] + (TEXT_FIXED_NEG if w.get("neg") else TEXT_FIXED)}: {p}'}
         return {'reproduced': False, 'what': 'every emitted text reads back as the named formula'}
     if c == 'keepdrop':
         col = w['col']
